@@ -22,49 +22,23 @@ Inductive gtrace : kstate -> list item -> list op -> kstate -> tstat -> Prop :=
     ~ In (it_tgt it) (mps ks) -> kmount_it f ks it = KErr ->
     gtrace ks (it :: its) (mops it false) ks TFailed.
 
-Lemma itrace_g bd ks ksc its ops ks' ksc' st :
-  itrace ks ksc its ops ks' ksc' st ->
-  forall D, wf_table (ks_tab ks) = true -> wf_table (ks_tab ksc) = true -> coh ks ksc D ->
-  incl (mps ksc) (mps ks) -> clean_items D its -> Forall (item_ok bd) its ->
+Lemma itrace_g ks its ops ks' st :
+  itrace ks its ops ks' st -> wf_table (ks_tab ks) = true -> tys_ok its ->
   gtrace ks its ops ks' st.
 Proof.
-  induction 1 as [ks ksc|ks ksc its|ks ksc it its ops ks' ksc' st Hc Ht IH
-                 |ks ksc it its f0 ks1 ops ks' ksc' st Hc Hk Ht IH|ks ksc it its f0 Hc Hk];
-    intros D Hw Hwc Hcoh Hincl Hcl Hok.
+  induction 1 as [ks|ks its|ks it its ops ks' st Hc Ht IH
+                 |ks it its f0 ks1 ops ks' st Hc Hk Ht IH|ks it its f0 Hc Hk];
+    intros Hw Hty.
   - constructor.
   - constructor.
-  - destruct Hcl as [_ Hcl]. inversion Hok as [|? ? Hok1 Hok2]; subst.
-    apply G_skip.
-    + apply Hincl. apply mounted_at_in. now rewrite <- cmounted_wf.
-    + apply (IH (if it_refresh it then D else it_tgt it :: D) Hw Hwc); [|exact Hincl|exact Hcl|exact Hok2].
-      destruct (it_refresh it); [exact Hcoh|]. intros t Ht0. destruct (Hcoh t Ht0); [now left|right; now right].
-  - destruct Hcl as [HnD Hcl]. inversion Hok as [|? ? Hok1 Hok2]; subst.
-    assert (Hnc : ~ In (it_tgt it) (mps ksc)).
-    { rewrite cmounted_wf in Hc by exact Hwc. now apply mounted_at_false in Hc. }
-    assert (Hnk : ~ In (it_tgt it) (mps ks)).
-    { intros Hin. destruct (Hcoh _ Hin); contradiction. }
-    destruct Hok1 as (Hty & Hu & Hov).
-    assert (Hw1 : wf_table (ks_tab ks1) = true) by (eapply kmount_wf; [exact Hw|exact Hty|exact Hk]).
-    eapply G_mount; [exact Hnk|exact Hk|].
-    apply (IH (if it_refresh it then D else it_tgt it :: D) Hw1).
-    + destruct (it_refresh it); assumption.
-    + destruct (it_refresh it) eqn:Er; [intros t Ht0; now left|].
-      destruct (Hov eq_refl) as (Ety & Esrc & Etgt).
-      pose proof (kmount_mps _ _ _ _ _ _ _ _ Hk) as E1. rewrite Ety in E1.
-      change (mount_flags overlay) with 0 in E1. unfold delta in E1.
-      change (has_flag 0 MS_REMOUNT) with false in E1. change (has_flag 0 MS_SLAVE) with false in E1.
-      change (has_flag 0 MS_BIND) with false in E1. cbv iota in E1.
-      intros t Ht0. rewrite E1 in Ht0. apply in_app_or in Ht0 as [Ht0|[<-|[]]].
-      * destruct (Hcoh t Ht0); [now left|right; now right].
-      * right. now left.
-    + destruct (it_refresh it); [apply incl_refl|].
-      eapply incl_tran; [exact Hincl|]. eapply kmount_mono. exact Hk.
-    + exact Hcl.
-    + exact Hok2.
-  - destruct Hcl as [HnD _].
-    assert (Hnc : ~ In (it_tgt it) (mps ksc)).
-    { rewrite cmounted_wf in Hc by exact Hwc. now apply mounted_at_false in Hc. }
-    eapply G_fail; [|exact Hk]. intros Hin. destruct (Hcoh _ Hin); contradiction.
+  - inversion Hty as [|? ? Hty1 Hty2]; subst. apply G_skip; [|now apply IH].
+    apply mounted_at_in. now rewrite <- cmounted_wf.
+  - inversion Hty as [|? ? Hty1 Hty2]; subst.
+    eapply G_mount; [|exact Hk|].
+    + rewrite cmounted_wf in Hc by exact Hw. now apply mounted_at_false in Hc.
+    + apply IH; [|exact Hty2]. eapply kmount_wf; [exact Hw|exact Hty1|exact Hk].
+  - eapply G_fail; [|exact Hk].
+    rewrite cmounted_wf in Hc by exact Hw. now apply mounted_at_false in Hc.
 Qed.
 
 Lemma gtrace_app ks a ops1 ks1 st1 : gtrace ks a ops1 ks1 st1 -> st1 = TDone ->
@@ -88,23 +62,20 @@ Proof.
   - eapply G_fail; eassumption.
 Qed.
 
-Lemma ltrace_g c ch ks ls ops ks' st :
-  ltrace ks ls ops ks' st -> wf_table (ks_tab ks) = true -> Forall (layer_clean c ch) ls ->
+Lemma ltrace_g ks ls ops ks' st :
+  ltrace ks ls ops ks' st -> wf_table (ks_tab ks) = true -> Forall tys_ok ls ->
   gtrace ks (concat ls) ops ks' st.
 Proof.
-  induction 1 as [ks|ks ls|ks its ls ops1 ks1 ksc1 ops2 ks2 st Hi Hl IH|ks its ls ops1 ks1 ksc1 st Hst Hi];
-    intros Hw Hcl; cbn [concat].
+  induction 1 as [ks|ks ls|ks its ls ops1 ks1 ops2 ks2 st Hi Hl IH|ks its ls ops1 ks1 st Hst Hi];
+    intros Hw Hty; cbn [concat].
   - constructor.
   - constructor.
-  - inversion Hcl as [|? ? (Hc1 & x & Hx & Hok) Hcl2]; subst.
-    assert (Hcoh : coh ks ks []) by (intros t Ht0; now left).
+  - inversion Hty as [|? ? Hty1 Hty2]; subst.
     eapply gtrace_app; [|reflexivity|].
-    + eapply (itrace_g (build_path c x)); [exact Hi|exact Hw|exact Hw|exact Hcoh|apply incl_refl|exact Hc1|exact Hok].
-    + apply IH; [|exact Hcl2]. eapply itrace_wf; [exact Hi|exact Hw|]. eapply item_ok_tys; exact Hok.
-  - inversion Hcl as [|? ? (Hc1 & x & Hx & Hok) Hcl2]; subst.
-    assert (Hcoh : coh ks ks []) by (intros t Ht0; now left).
-    apply gtrace_app_stop; [|exact Hst].
-    eapply (itrace_g (build_path c x)); [exact Hi|exact Hw|exact Hw|exact Hcoh|apply incl_refl|exact Hc1|exact Hok].
+    + eapply itrace_g; eassumption.
+    + apply IH; [|exact Hty2]. eapply itrace_wf; eassumption.
+  - inversion Hty as [|? ? Hty1 Hty2]; subst.
+    apply gtrace_app_stop; [|exact Hst]. eapply itrace_g; eassumption.
 Qed.
 
 (* ------------------------------------------------------------------ counting *)
@@ -175,18 +146,26 @@ Definition rbind_clear_items (its : list item) (T : list bytes) : Prop :=
   forall it t, In it its -> In t T -> mount_flags (it_ty it) = MS_BIND + MS_REC ->
                prefixb (it_tgt it ++ [sl]) t = false.
 
-Lemma gtrace_count T ks its ops ks' st :
-  gtrace ks its ops ks' st -> rbind_clear_items its T ->
-  (forall t, In t T -> (cntl (mps ks) t <= 1)%nat) ->
-  forall t, In t T -> (cntl (mps ks') t <= 1)%nat.
+(* per expected mountpoint: the count is what it was at the start (table [M0]), or the point
+   was free and this run put exactly one mount there *)
+Definition cinv (T M0 : list bytes) (ks : kstate) : Prop :=
+  forall t, In t T ->
+    cntl (mps ks) t = cntl M0 t \/ (cntl M0 t = 0%nat /\ cntl (mps ks) t = 1%nat).
+
+Lemma gtrace_count T M0 ks its ops ks' st :
+  gtrace ks its ops ks' st -> rbind_clear_items its T -> cinv T M0 ks -> cinv T M0 ks'.
 Proof.
   induction 1 as [ks|ks its|ks it its ops ks' st Hin Hg IH|ks it its f ks1 ops ks' st Hn Hk Hg IH|ks it its f Hn Hk];
-    intros Hrb Hc t Ht; auto.
-  - apply IH; [|exact Hc|exact Ht]. intros it' t' Hi'. apply Hrb. now right.
-  - apply IH; [intros it' t' Hi'; apply Hrb; now right| |exact Ht].
-    intros t' Ht'. unfold kmount_it in Hk. rewrite (kmount_mps _ _ _ _ _ _ _ _ Hk), cntl_app.
+    intros Hrb Hc; auto.
+  - apply IH; [|exact Hc]. intros it' t' Hi'. apply Hrb. now right.
+  - apply IH; [intros it' t' Hi'; apply Hrb; now right|].
+    intros t' Ht'. pose proof Hk as Hk0. unfold kmount_it in Hk0.
+    rewrite (kmount_mps _ _ _ _ _ _ _ _ Hk0), cntl_app.
     pose proof (delta_count it (mps ks) t' (Hrb it t' (or_introl eq_refl) Ht')) as Hd.
     destruct (beq (it_tgt it) t') eqn:E.
-    + apply beq_true in E. subst t'. rewrite (cntl_notin _ _ Hn). lia.
-    + specialize (Hc t' Ht'). lia.
+    + apply beq_true in E. subst t'. pose proof (cntl_notin _ _ Hn) as H0.
+      pose proof (kmount_ok_mounted _ _ _ _ _ _ _ _ Hk0) as Hin1. apply cntl_in in Hin1.
+      rewrite (kmount_mps _ _ _ _ _ _ _ _ Hk0), cntl_app in Hin1.
+      destruct (Hc _ Ht') as [Hc1|[Hc1 Hc2]]; [right; split; lia|lia].
+    + destruct (Hc t' Ht') as [Hc1|[Hc1 Hc2]]; [left; lia|right; split; lia].
 Qed.
